@@ -114,6 +114,7 @@ PROPS = {
                U("c08_recurse_regret_dispatch", ["C08.V.recurse_regret.cache_hit (a frontier node evaluated by a worker is not traversed again)", "C08.V.recurse_regret.chance_sampled", "C08.V.recurse_regret.external_sampled"]),
                U("c09_external_single", ["C09.V.first_below"]), U("c09_external_multi", ["C09.V.first_below"]),
                U("c10_sampled_chance", ["C10.V.sampled_chance.cache_hit", "C10.V.sampled_chance.reset"]),
+               U("c10_external_next", ["C10.V.external.chance_next (the draw made at the first visit is the one every later visit of the pass follows)", "C10.V.external.next_update"]),
                U("c10_cached_infoset", ["C10.V.cached_infoset.cache_hit"]),
                U("c08_advance_order", ["C10.V.cached_infoset.advance_resets_draw"])],
         trusted_base=["assumed contracts on thread_threshold and rayon (prelude/workspace.rs)"],
@@ -185,6 +186,7 @@ PROPS = {
             U("c10_cached_infoset", ["C10.V.cached_infoset.cache_hit", "C10.V.cached_infoset.draws_from_current_strategy"]),
             U("c08_advance_order", ["C10.V.cached_infoset.advance_resets_draw"]),
             U("c10_full_chance", ["C10.V.full_chance.no_draw"]),
+            U("c10_external_next", ["C10.V.external.chance_next", "C10.V.external.chance_advance_rearms", "C10.V.external.player_next", "C10.V.external.next_update"]),
             U("c08_recurse_regret_dispatch", ["C08.V.recurse_regret.active_enumerates (the pass's own player is enumerated)", "C08.V.recurse_regret.external_sampled (the other player's sampled action is followed)", "C08.V.recurse_regret.chance_sampled"]),
         ],
         kani_functions=["src/solve/multinomial.rs :: impl Distribution<usize> for Multinomial / fn sample"],
